@@ -29,7 +29,11 @@ Definition chk (c : c16_case) : bool :=
    end)
   &&
   (match script_queries (c16_prog c) (c16_enums c) (c16_ana c), c16_queries c with
-   | Ok ms, Some os => qs_eqb (map (fun q => let '(n, vs, t) := q in (n, vs, norm_ws t)) ms) os
+   | Ok ms, Some os =>
+       (* the functions are assembled by declaration ID (C19), not in source order: compared as sets of equal size *)
+       let ms' := map (fun q => let '(n, vs, t) := q in (n, vs, norm_ws t)) ms in
+       Nat.eqb (List.length ms') (List.length os)
+       && forallb (fun m => existsb (q_eqb m) os) ms' && forallb (fun o => existsb (fun m => q_eqb m o) ms') os
    | Diag _, None => true
    | Ok _, None => c16_crud_refused_elsewhere c
    | _, _ => false
